@@ -147,7 +147,7 @@ type Query struct {
 // Case is a tree and the queries put to it.
 type Case struct {
 	App     uint32     `json:"app"`
-	Build   int        `json:"build"` // 0 AddAVP(ToDiamAVP), 1 Message.NewAVP by number, 2 Message.NewAVP by name, 3 groups created empty and filled afterwards (top-down), 4 AVP struct literals (Length never set)
+	Build   int        `json:"build"` // 0 AddAVP(ToDiamAVP), 1 Message.NewAVP by number, 2 Message.NewAVP by name, 3 groups created empty and filled afterwards (top-down), 4 AVP struct literals (Length never set), 5 as 0, then shared objects: every top-level group is added once more as another AVP wrapping the SAME *GroupedAVP, and the first nested AVP pointer is also added at top level
 	AVPs    []*gen.AVP `json:"avps"`
 	Queries []Query    `json:"queries"`
 }
@@ -240,6 +240,22 @@ func build(c Case, p *dict.Parser, cat *gen.Catalog) (*diam.Message, error) {
 			m.AddAVP(b)
 		default:
 			m.AddAVP(b)
+		}
+	}
+	if c.Build == 5 {
+		// an application assembling messages from parts it keeps: one object at several positions
+		top := append([]*diam.AVP{}, m.AVP...)
+		var nested *diam.AVP
+		for _, a := range top {
+			if g, ok := a.Data.(*diam.GroupedAVP); ok && g != nil {
+				m.AddAVP(&diam.AVP{Code: a.Code, Flags: a.Flags, VendorID: a.VendorID, Data: g})
+				if nested == nil && len(g.AVP) > 0 {
+					nested = g.AVP[len(g.AVP)-1]
+				}
+			}
+		}
+		if nested != nil {
+			m.AddAVP(nested)
 		}
 	}
 	return m, nil
@@ -487,7 +503,7 @@ func runCase(c Case) *ev.Failure {
 	if err != nil {
 		return ev.Failf("harness-decode", "the serialised tree does not decode: %v", err)
 	}
-	if d := gen.CompareTree(c.AVPs, decoded.AVP, ""); d != "" {
+	if d := gen.CompareTree(c.AVPs, decoded.AVP, ""); d != "" && c.Build != 5 { // mode 5 repeats parts of the tree
 		return ev.Failf("harness-decode", "the decoded tree is not the generated one: %s", d)
 	}
 	for _, q := range c.Queries {
@@ -884,7 +900,7 @@ func genCase(t *rapid.T) Case {
 	if err != nil {
 		t.Fatalf("harness: %v", err)
 	}
-	c := Case{App: rapid.SampledFrom(apps).Draw(t, "app").ID, Build: rapid.IntRange(0, 4).Draw(t, "build")}
+	c := Case{App: rapid.SampledFrom(apps).Draw(t, "app").ID, Build: rapid.IntRange(0, 5).Draw(t, "build")}
 	var groups, scalars []sym
 	for _, s := range symsFor(c.App, alphabet) {
 		if s.Grouped {
@@ -913,7 +929,7 @@ func genCase(t *rapid.T) Case {
 var prop = ev.Register(&ev.Prop[Case]{
 	ID:   "C20",
 	Name: "search",
-	Rule: "dict.Default; message application in {0, 4, 16777251}; trees of depth <= 4 over a per-case palette of 1-3 grouped and 1-4 non-grouped codes (base codes 260 279 284 297 / 264 296 266 258 268 263, 3GPP codes 873 874 1400 / 1 2 with vendor 10415, one code the dictionary does not define), built by AddAVP / Message.NewAVP by number / by name and, independently, decoded from the serialised message; 6 queries per tree (FindAVP / FindAVPs for present, absent and undefined codes and names; FindAVPsWithPath for paths of nodes, path suffixes, paths continuing below non-grouped AVPs, perturbed and random paths), codes as uint32 / int / name, vendor wildcard or the dictionary vendor, each query run on the built and on the decoded message against a reference pre-order walk by pointer identity; non-trivial = some query's (last) code occurs at least twice at two or more depths of the tree",
+	Rule: "dict.Default; message application in {0, 4, 16777251}; trees of depth <= 4 over a per-case palette of 1-3 grouped and 1-4 non-grouped codes (base codes 260 279 284 297 / 264 296 266 258 268 263, 3GPP codes 873 874 1400 / 1 2 with vendor 10415, one code the dictionary does not define), built by AddAVP / Message.NewAVP by number / by name / top-down / from struct literals / with one group object and one AVP object placed at two positions each, and, independently, decoded from the serialised message; 6 queries per tree (FindAVP / FindAVPs for present, absent and undefined codes and names; FindAVPsWithPath for paths of nodes, path suffixes, paths continuing below non-grouped AVPs, perturbed and random paths), codes as uint32 / int / name, vendor wildcard or the dictionary vendor, each query run on the built and on the decoded message against a reference pre-order walk by pointer identity; non-trivial = some query's (last) code occurs at least twice at two or more depths of the tree",
 	Gen:  genCase, Run: runCase, Classify: classify,
 })
 
@@ -991,7 +1007,7 @@ func TestC20Canonical(t *testing.T) {
 		{Op: "first", Path: []Elem{n(264)}, Vendor: wild, Why: "canonical"},
 		{Op: "first", Path: []Elem{{Form: "name", Name: noSuchName, NoSuchName: true}}, Vendor: wild, Why: "canonical"},
 	}}
-	for b := 0; b <= 4; b++ {
+	for b := 0; b <= 5; b++ {
 		c.Build = b
 		prop.One(t, c)
 	}
